@@ -353,7 +353,14 @@ func (x *run) readAll() {
 		if p.lazy {
 			p.start()
 		}
-		b, ended := p.take(int(want), 2*time.Second)
+		var b []byte
+		var ended bool
+		if p.hist != x.hist {
+			// invalidated by a reset since it was handed out: it may still deliver what it had pinned, then it has to end
+			b, ended = p.take(1<<30, 2*time.Second)
+		} else {
+			b, ended = p.take(int(want), 2*time.Second)
+		}
 		own := true // every byte is the byte of the history the reader was opened on
 		for i, c := range b {
 			if c != Byte(p.hist, p.pos+int64(i)) {
@@ -672,6 +679,7 @@ var freezeEvery int
 // closeGate: a snapshot writer that is being closed by a closingReader waits at its "rdb.close" point (before it decides
 // whether the snapshot is complete) until the reader has handed the last bytes to the writer's pump
 var tailHook atomic.Pointer[func()]
+var segClosedHook atomic.Pointer[func()]
 var closeGate atomic.Pointer[chan struct{}]
 var closeReached atomic.Pointer[chan struct{}]
 
@@ -681,6 +689,13 @@ func installFreeze() {
 			// a tailing reader has just seen the end of its segment and has not yet looked for a successor: the one instant
 			// at which an append that also rotates the log decides whether the reader loses the tail of its segment
 			if f := tailHook.Swap(nil); f != nil {
+				(*f)()
+			}
+			return
+		}
+		if name == "store.ds" {
+			// a reset / writer replacement has just closed the readers of one log segment and has the others still to do
+			if f := segClosedHook.Swap(nil); f != nil {
 				(*f)()
 			}
 			return
@@ -717,6 +732,136 @@ func installFreeze() {
 		}
 		os.WriteFile(dst+".why", []byte(fmt.Sprint(args...)), 0o644)
 	})
+}
+
+// closeRaceScenario (disk back end): a reader that lags more than its read-ahead behind sits inside the first of two log
+// segments; the cache is reset; at the moment the reset has closed the readers of ONE segment (whichever it takes first) the
+// reader's consumer drains it, so that the reader steps over the segment boundary while the reset is at work.  Whatever the
+// order of the reset's pass, the reader has been invalidated: it hands over bytes of its own history at most, and ends.
+func closeRaceScenario(tr *hx.Trace, id int, work string, r *hx.Rng) {
+	base := filepath.Join(work, fmt.Sprintf("race%d", id))
+	os.MkdirAll(base, 0o755)
+	defer os.RemoveAll(base)
+	const seg1 = 2_600_000
+	ch := syncer.NewStoreChannel(syncer.StorerConf{InputId: "verif", Dir: base, MaxSize: 1 << 30, LogSize: 16 + seg1})
+	defer ch.Close()
+	label := "runA"
+	if err := ch.SetRunId(label); err != nil {
+		hx.Fatal("SetRunId: %v", err)
+	}
+	x := &run{r: r, tr: tr, disk: true, readers: map[int]*pump{}, wl: -1, wr: -1, label: label, ch: ch}
+	tr.Emit(map[string]interface{}{"ev": "Reset", "id": id, "backend": "disk"})
+	off := int64(100 + r.Intn(900))
+	f := hx.NewFeedReader()
+	w, err := ch.NewAofWritter(f, off)
+	if err != nil {
+		hx.Fatal("NewAofWritter: %v", err)
+	}
+	w.Start()
+	x.wl, x.wr = off, off
+	x.op(map[string]interface{}{"op": "aofwriter", "off": off})
+	total := int64(seg1 + 150_000 + r.Intn(100_000))
+	f.Feed(gen(total, func(i int64) byte { return Byte(x.hist, off+i) }))
+	if !f.WaitDrained(nil, 60*time.Second) {
+		hx.Fatal("close race %d: the writer did not take the data", id)
+	}
+	dl := time.Now().Add(60 * time.Second)
+	for {
+		if _, rr := ch.GetOffsetRange(label); rr >= off+total {
+			break
+		}
+		if time.Now().After(dl) {
+			hx.Fatal("close race %d: the cache did not reach offset %d", id, off+total)
+		}
+		time.Sleep(time.Millisecond)
+	}
+	x.wr = off + total
+	x.op(map[string]interface{}{"op": "append", "n": total})
+	rd, err := ch.NewReader(syncer.Offset{RunId: label, Offset: off})
+	if err != nil || !rd.IsAof() {
+		hx.Fatal("close race %d: NewReader: %v", id, err)
+	}
+	// the consumer reads by hand (no pump: the reader has to stay behind)
+	wait := usync.NewWaitCloser(nil)
+	rd.Start(wait)
+	defer func() { rd.Close(); wait.Close(nil) }()
+	x.obs(map[string]interface{}{"o": "open", "r": 1, "off": off, "aof": true, "lazy": false})
+	time.Sleep(80 * time.Millisecond) // the reader fills its read-ahead and waits inside the first segment
+	pos := off
+	own := true
+	var mu sync.Mutex
+	got := int64(0)
+	ended := false
+	read := func(max int64, quiet time.Duration) {
+		// read up to max bytes; give up after `quiet` without a byte
+		type res struct {
+			b   []byte
+			err error
+		}
+		for got < max && !ended {
+			c := make(chan res, 1)
+			go func() {
+				b := make([]byte, 1<<16)
+				n, err := rd.IoReader().Read(b)
+				c <- res{b[:n], err}
+			}()
+			select {
+			case x := <-c:
+				mu.Lock()
+				for i, v := range x.b {
+					if v != Byte(0, pos+int64(i)) {
+						own = false
+					}
+				}
+				pos += int64(len(x.b))
+				got += int64(len(x.b))
+				if x.err != nil {
+					ended = true
+				}
+				mu.Unlock()
+			case <-time.After(quiet):
+				return // (the read goroutine stays blocked on a reader that hands over nothing: that is the observation)
+			}
+		}
+	}
+	fired := make(chan struct{})
+	hook := func() {
+		// the reset has closed the readers of one segment: now the consumer drains enough for the reader to cross the boundary
+		read(1_600_000, 600*time.Millisecond)
+		time.Sleep(40 * time.Millisecond)
+		close(fired)
+	}
+	segClosedHook.Store(&hook)
+	// the reset: a new snapshot is cached (everything cached before is void; the files go after the readers were closed)
+	f.CloseWith(io.EOF)
+	sl, ss := off+total-int64(r.Intn(1000)), int64(8)
+	sf := hx.NewFeedReader()
+	sw, err := ch.NewRdbWriter(sf, sl, ss)
+	if err != nil {
+		hx.Fatal("close race %d: NewRdbWriter: %v", id, err)
+	}
+	segClosedHook.Store(nil)
+	select {
+	case <-fired:
+	default:
+	}
+	sw.Start()
+	x.hist++
+	x.op(map[string]interface{}{"op": "snap", "l": sl, "s": ss})
+	sf.Feed(snapData(x.hist, sl, ss))
+	sw.Wait(nil2())
+	x.op(map[string]interface{}{"op": "snapappend", "n": ss})
+	before := got
+	_ = before
+	read(1<<40, 1500*time.Millisecond)
+	mu.Lock()
+	x.obs(map[string]interface{}{"o": "deliver", "r": 1, "n": got, "want": 0, "match": own, "own": own, "ended": ended})
+	if !ended {
+		// nothing more and still open: asked once more (n = 0 is what the rule looks at)
+		x.obs(map[string]interface{}{"o": "deliver", "r": 1, "n": 0, "want": 0, "match": true, "own": true, "ended": false})
+	}
+	mu.Unlock()
+	f.CloseWith(io.EOF)
 }
 
 func main() {
@@ -768,6 +913,12 @@ func main() {
 				continue
 			}
 			r := hx.NewRng(*seed*1009 + uint64(i)*2 + uint64(len(be)))
+			if be == "disk" && *crash == "" && i/(*shards)%4 == 1 {
+				wd.Kick(fmt.Sprintf("close race scenario %d", id))
+				closeRaceScenario(tr, id, *work, r)
+				nScen++
+				continue
+			}
 			x := &run{r: r, tr: tr, disk: be == "disk", readers: map[int]*pump{}, wl: -1, wr: -1, label: "runA",
 				logSize: int64(4 + r.Intn(8))}
 			x.maxSize = x.logSize * int64(2+r.Intn(4))
